@@ -112,3 +112,26 @@ PROPS["C10"] = dict(
     trusted=["goja ToInteger/ToFloat/BigInt export; Go float32 conversion (modelled, compared)"],
     assumptions=["fractional offsets and float32 overflow are outside the claim (property text)"],
 )
+
+PROPS["C11"] = dict(
+    harness="bufstr", module="Cases.C11Check", shard=150,
+    level_text="Round-trip theorems for ALL byte sequences (hex, base64, base64url; utf8 for every well-formed sequence), hex stops at the first "
+               "invalid pair, toString(enc,start,end) = encoding of the clamped sub-range for every start/end and never traps, the fill pattern is "
+               "repeated cyclically and never hangs (the doubling loop as written), write keeps the longest prefix of whole characters, array-likes "
+               "are stored modulo 256; the codec table and delegation are regenerated from buffer.go",
+    level_note="Proof is about Model/Codecs.v + Model/BufferStrings.v (models of encoding/hex, encoding/base64, dop251/base64dec, x/text UTF-8 and of "
+               "the entry points as written). The library codecs are dependencies: their models are validated by the differential run. Agreement of "
+               "entry points (from / write / alloc fill / DecodeBytes / EncodeBytes), copy-vs-share and equals are run-time oracles. For ill-formed "
+               "UTF-8 only agreement is checked, not the replacement policy.",
+    rule="mix of: round trips b -> toString(enc) -> from (bytes: arbitrary, ASCII, well-formed multi-byte, every ill-formed kind); toString ranges "
+         "with hostile start/end; strings over each alphabet + padding, line breaks, garbage, lone surrogates decoded by every entry point; "
+         "write with hostile offset/length and multi-byte strings that do not fit; alloc fill patterns (empty, longer, undecodable); array-likes "
+         "with hostile elements; non-trivial = non-empty input that exercises leniency/clamping; distinct by hash",
+    codes={"Diff1": "toString differs", "Diff2": "Buffer.from(string) differs from the model decoder", "Diff3": "model round trip differs",
+           "Diff4": "write differs", "Diff5": "fill differs", "Diff6": "array-like differs",
+           "SpecFail1": "Buffer.from(b.toString(enc), enc) is not b", "SpecFail2": "toString is not the encoding of the clamped sub-range",
+           "SpecFail3": "fill is not the cyclic repetition of the decoded pattern", "SpecFail4": "array-like element not stored modulo 256",
+           "SpecFail5": "Go panic escaped", "SpecFail6": "hang"},
+    trusted=["goja typed arrays / ArrayBuffer sharing; x/text UTF-8 transcoders, encoding/hex, encoding/base64, dop251/base64dec (modelled, compared)"],
+    assumptions=["latin1/ascii/utf16le are not implemented by the library and are outside the claim"],
+)
